@@ -1070,6 +1070,11 @@ def native_sampling(c, f, n, seed):
         except Exception:
             pass
         if chk['violated'] and len(found) < 5:
+            try:
+                import base64 as _b64
+                pk_ = _b64.b64encode(pickle.dumps({k: v_ for k, v_ in nargs.items() if not getattr(c.sig.get(k), 'no_pickle', False)})).decode()
+            except Exception:
+                pk_ = None
             found.append({'clauses': chk['violated'], 'inputs': repr({k: _norm_native(v_) for k, v_ in nargs.items() if not isinstance(c.sig.get(k), api.Const)})[:2000],
-                          'observation': chk['observation']})
+                          'observation': chk['observation'], 'pickle': pk_})
     return {'evaluations': done, 'distinct': len(distinct), 'violations': found}
